@@ -13,18 +13,29 @@
 (*   [op |-> "deliver", id |-> k, last |-> b]   a response frame for id k arrives (final / non-final page)  *)
 (*   [op |-> "close"]                                                                                      *)
 (*   [op |-> "recv", id |-> k]                  the caller polls the request its k-th operation (a send) was given *)
+(*   [op |-> "expire", owner |-> u, id |-> k]   a timer goroutine of the request that the k-th operation of thread u *)
+(*                                              (a send) was given has seen its deadline pass and now fails the     *)
+(*                                              request with a timeout (time is abstract here: any armed timer may   *)
+(*                                              fire at any moment; the harness runs these programs with a read      *)
+(*                                              timeout of 1 ns, so that every timer goroutine is at its gate at     *)
+(*                                              once and the schedule decides when - and whether - it goes on)        *)
 (* Steps and the gate each one ends at ("ret" = the call returns):                                         *)
 (*   send:    borrow -> out.borrowed ; check -> out.checked ; add -> out.added ; finish -> ret              *)
 (*            (a refused send returns from whichever step refuses it; after a failed check there is no add) *)
 (*   deliver: lookup -> in.lookedup ; [remove -> in.removed] ; release -> in.released ; hand -> ret         *)
 (*   close:   cas -> close.cas ; drain -> close.drained ; closepool -> ret                                  *)
 (*   recv:    one step (a non-blocking receive on the request's channel): "ok" with the next frame, else "err" *)
+(*   expire:  one step (timer.fire -> timer.fired: inFlightRequest.close with the timeout error): "ok" if a timer    *)
+(*            goroutine of that request was waiting, else "err" (nothing happens)                                    *)
 (* Setup names a thread that runs alone first (builds the starting state); "none" for no such thread.      *)
 (* CheckUnderLock / CloseOnReleaseFail = TRUE model the repaired tree; FALSE the tree as first found       *)
 (* (InFlightConcAsFound*.cfg: TLC must find the violation there - the invariants are not vacuous).         *)
+(* SendUnderLock = TRUE: onFrameReceived reads the request's channel field and sends on it under the       *)
+(* request's read lock (one step); FALSE (as found): the read and the send are two steps, and a timeout or  *)
+(* close in between closes the channel: the send panics (result "panic"; invariant NoPanic).               *)
 EXTENDS Integers, Sequences, FiniteSets, TLC, Json
 
-CONSTANTS N, MaxPending, Progs, Setup, CheckUnderLock, CloseOnReleaseFail
+CONSTANTS N, MaxPending, Progs, Setup, CheckUnderLock, CloseOnReleaseFail, SendUnderLock
 
 Threads == DOMAIN Progs
 MaxId == N + 2
@@ -42,10 +53,15 @@ VARIABLES free,     \* the pool of free ids, a FIFO (buffered channel)
 vars == <<free, table, reqs, closed, ip, pc, loc, results>>
 
 TableIds == {i \in Ids : table[i] # NoReq}
-NewReq(id, managed, owner, k) == [id |-> id, managed |-> managed, owner |-> owner, op |-> k, pend |-> <<>>, got |-> <<>>, done |-> FALSE, failed |-> FALSE, ans |-> FALSE, rel |-> FALSE]
+NewReq(id, managed, owner, k) == [id |-> id, managed |-> managed, owner |-> owner, op |-> k, pend |-> <<>>, got |-> <<>>, done |-> FALSE, failed |-> FALSE, ans |-> FALSE, rel |-> FALSE, tm |-> 0]
 CloseReq(r, failed) == IF r.done THEN r ELSE [r EXCEPT !.done = TRUE, !.failed = failed]
 Op(t) == Progs[t][ip[t]]
-First(o) == CASE o.op = "send" -> "borrow" [] o.op = "deliver" -> "lookup" [] o.op = "close" -> "cas" [] o.op = "recv" -> "recv"
+First(o) == CASE o.op = "send" -> "borrow" [] o.op = "deliver" -> "lookup" [] o.op = "close" -> "cas" [] o.op = "recv" -> "recv" [] o.op = "expire" -> "fire"
+\* timer goroutines are part of the model only in programs that let one of them go on
+HasTimers == \E t \in Threads : \E k \in 1..Len(Progs[t]) : Progs[t][k].op = "expire"
+\* startTimeout: a new timer goroutine, which sees its deadline pass unless the request is already completed (its
+\* context cancelled)
+Arm(r) == IF HasTimers /\ ~r.done THEN [r EXCEPT !.tm = @ + 1] ELSE r
 NoLoc == [id |-> 0, req |-> 0, err |-> "none"]
 
 Init == /\ free = [i \in 1..N |-> i]
@@ -109,11 +125,12 @@ Add(t) ==
 FinishSend(t) ==
     /\ pc[t] = "finish"
     /\ IF loc[t].err = "none"
-       THEN Return(t, "ok", loc[t].req) /\ UNCHANGED free
+       THEN Return(t, "ok", loc[t].req) /\ UNCHANGED free /\ reqs' = [reqs EXCEPT ![loc[t].req] = Arm(@)]
        ELSE /\ Return(t, "err", 0)
             /\ free' = IF Op(t).id = 0 /\ ~closed /\ Len(free) < N THEN Append(free, loc[t].id) ELSE free
+            /\ UNCHANGED reqs
     /\ loc' = [loc EXCEPT ![t] = NoLoc]
-    /\ UNCHANGED <<table, reqs, closed>>
+    /\ UNCHANGED <<table, closed>>
 
 -----------------------------------------------------------------------------
 \* deliver: isClosed ; lookup under the read lock
@@ -156,18 +173,46 @@ Release(t) ==
     /\ UNCHANGED <<table, closed>>
 
 \* inFlightRequest.onFrameReceived: the frame is identified by <<thread, operation index>>
-Hand(t) ==
-    /\ pc[t] = "hand"
+\* the select: the frame goes into the channel (a non-final page re-arms the timer; the final one completes the
+\* request); a completed request takes the "context done" branch; a full channel fails the request
+HandBody(t) ==
     /\ LET r == reqs[loc[t].req] IN
        IF r.done THEN Return(t, "err", 0) /\ UNCHANGED reqs
        ELSE IF Len(r.pend) < MaxPending
             THEN /\ reqs' = [reqs EXCEPT ![loc[t].req] =
                                 IF Op(t).last THEN CloseReq([r EXCEPT !.pend = Append(@, <<t, ip[t]>>)], FALSE)
-                                ELSE [r EXCEPT !.pend = Append(@, <<t, ip[t]>>)]]
+                                ELSE Arm([r EXCEPT !.pend = Append(@, <<t, ip[t]>>)])]
                  /\ Return(t, "ok", 0)
             ELSE /\ reqs' = [reqs EXCEPT ![loc[t].req] = CloseReq(r, TRUE)] /\ Return(t, "err", 0)
     /\ loc' = [loc EXCEPT ![t] = NoLoc]
     /\ UNCHANGED <<free, table, closed>>
+
+Hand(t) ==
+    /\ pc[t] = "hand"
+    /\ IF SendUnderLock THEN HandBody(t)
+       ELSE \* as found: the channel field is read here ...
+            /\ loc' = [loc EXCEPT ![t].err = IF reqs[loc[t].req].done THEN "nil" ELSE "open"]
+            /\ Goto(t, "hand2")
+            /\ UNCHANGED <<free, table, reqs, closed>>
+
+\* ... and sent on here: a channel that was open when read and has been closed since makes the send panic
+Hand2(t) ==
+    /\ pc[t] = "hand2"
+    /\ IF loc[t].err = "open" /\ reqs[loc[t].req].done
+       THEN Return(t, "panic", 0) /\ loc' = [loc EXCEPT ![t] = NoLoc] /\ UNCHANGED <<free, table, reqs, closed>>
+       ELSE HandBody(t)
+
+\* a timer goroutine of the request goes on from timer.fire: inFlightRequest.close(timeout error). The request stays
+\* registered (only its final response, or close, unregisters it)
+Fire(t) ==
+    /\ pc[t] = "fire"
+    /\ LET o == Op(t)
+           i == IF o.owner \in Threads /\ o.id <= Len(results[o.owner]) THEN results[o.owner][o.id].req ELSE 0
+       IN IF i # 0 /\ reqs[i].tm > 0
+          THEN /\ reqs' = [reqs EXCEPT ![i] = [CloseReq(@, TRUE) EXCEPT !.tm = @ - 1]]
+               /\ Return(t, "ok", 0)
+          ELSE Return(t, "err", 0) /\ UNCHANGED reqs
+    /\ UNCHANGED <<free, table, closed, loc>>
 
 -----------------------------------------------------------------------------
 \* close: compare-and-swap on the closed flag
@@ -214,7 +259,7 @@ Runnable(t) == pc[t] # "done" /\ (Setup \in Threads /\ t # Setup => pc[Setup] = 
 Next == \E t \in Threads :
           /\ Runnable(t)
           /\ \/ Borrow(t) \/ Check(t) \/ Add(t) \/ FinishSend(t)
-             \/ Lookup(t) \/ Unknown(t) \/ Remove(t) \/ Release(t) \/ Hand(t)
+             \/ Lookup(t) \/ Unknown(t) \/ Remove(t) \/ Release(t) \/ Hand(t) \/ Hand2(t) \/ Fire(t)
              \/ Cas(t) \/ Drain(t) \/ ClosePool(t) \/ Recv(t)
           \* every transition is printed: the harness walks the graph (all schedules, or a sample that covers every
           \* edge) and forces each walk onto real goroutines
@@ -262,6 +307,8 @@ RoutedById == \A i \in 1..Len(reqs) : \A f \in Frames(i) : Progs[f[1]][f[2]].id 
 OnceOnly == /\ \A i, j \in 1..Len(reqs) : i # j => Frames(i) \cap Frames(j) = {}
             /\ \A i \in 1..Len(reqs) : Cardinality(Frames(i)) = Len(reqs[i].pend) + Len(reqs[i].got)
 \* C10: a frame whose delivery returned ok is in exactly one request
+\* C16: nothing panics
+NoPanic == \A t \in Threads : \A k \in 1..Len(results[t]) : results[t][k].r # "panic"
 Delivered == \A t \in Threads : \A k \in 1..Len(results[t]) :
                Progs[t][k].op = "deliver" /\ results[t][k].r = "ok" => \E i \in 1..Len(reqs) : <<t, k>> \in Frames(i)
 
